@@ -959,7 +959,7 @@ func RunC18(e *Env) (int, error) {
 		"strace -y resolves the path of every successfully opened descriptor",
 		"crashes are C08's subject and are not judged here",
 	}
-	components(ev, e.Tree, []string{"stock bkl binary built from the working tree, real filesystem (files, symlinks, directories), strace monitor and openat fault injection"}, []string{})
+	components(ev, e.Tree, []string{"stock bkl binary built from the working tree, real filesystem (files, symlinks, directories), strace monitor and openat fault injection", "instrumented bkl under ascending iteration order for one sentinel only (a layer name with two providers, known finding c18-two-providers-escaping-link)"}, []string{})
 	return viol, err
 }
 
